@@ -92,7 +92,7 @@ class CT:
 
 
 class Scheduler:
-    def __init__(self, choices=None, line_preempt=False, trace_prefix=None, max_steps=400000):
+    def __init__(self, choices=None, line_preempt=False, trace_prefix=None, max_steps=400000, line_holds=False):
         self.now = 0.0
         self.threads = []
         self.current = None
@@ -102,6 +102,9 @@ class Scheduler:
         self.steps = 0
         self.max_steps = max_steps
         self.line_preempt = line_preempt
+        # line_holds: source lines of the library are also scheduling points of kind "line:<function name>", so that a targeted
+        # hold() can delay a thread at its n-th line inside a named function (no random preemption is taken there)
+        self.line_holds = line_holds
         self.trace_prefix = trace_prefix
         self.switches = 0
         self.line_switches = 0          # context switches taken at a non-synchronisation (source line) point
@@ -142,7 +145,7 @@ class Scheduler:
         ct.sem.acquire()                  # wait for the baton
         try:
             if not self.killing:
-                if self.line_preempt:
+                if self.line_preempt or self.line_holds:
                     sys.settrace(self._tracer)
                 target()
         except Killed:
@@ -162,8 +165,15 @@ class Scheduler:
         return None
 
     def _line(self, frame, event, arg):
-        if event == "line" and self.line_preempt and not self.in_sched and self.choice_i < len(self.choices) and not self.killing:
-            self.point("line", line=(frame.f_code.co_name, frame.f_lineno))
+        if event == "line" and not self.in_sched and not self.killing:
+            if self.line_holds and self.holds:
+                kind = "line:" + frame.f_code.co_name
+                cur = self.current
+                if cur is not None and any(h[1] == kind and h[0] == cur.name for h in self.holds):
+                    self.point(kind, line=(frame.f_code.co_name, frame.f_lineno))
+                    return self._line
+            if self.line_preempt and self.choice_i < len(self.choices):
+                self.point("line", line=(frame.f_code.co_name, frame.f_lineno))
         return self._line
 
     # ------------------------------------------------------------------ core
@@ -253,7 +263,7 @@ class Scheduler:
         nxt = self._pick(cur)
         if nxt is not cur:
             self.switches += 1
-            if kind == "line":
+            if kind.startswith("line"):
                 self.line_switches += 1
                 self.switch_pairs.add((cur.name, line))
             self.log.append((self.steps, cur.name, kind, "->", nxt.name))
